@@ -871,6 +871,58 @@ pub fn spaces(tier: Tier) -> Vec<Space> {
         let (t, bs) = (t.clone(), bs.clone());
         v.push(Space::new("wrong-key", bs.len() as u64 * 2 * nk, move |case, acc| eval_wrong_key(case, acc, &t, nk, &bs)));
     }
+    // shared points whose x coordinate lies in [n, p): the recipient key is constructed as a^-1 * T for the first curve
+    // points T with x >= n and the last below p; the ciphertext must equal the reference built from T
+    {
+        let t = t.clone();
+        let (n, pp) = (secp::n(), secp::p());
+        let mut ts: Vec<Point> = vec![];
+        let mut x = n.clone();
+        while ts.len() < 4 {
+            if let Some(y) = secp::lift_x(&x, ts.len() % 2 == 0) {
+                ts.push(Point::Affine { x: x.clone(), y });
+            }
+            x += 1u32;
+        }
+        let mut x = &pp - 1u32;
+        while ts.len() < 8 {
+            if let Some(y) = secp::lift_x(&x, ts.len() % 2 == 0) {
+                ts.push(Point::Affine { x: x.clone(), y });
+            }
+            x -= 1u32;
+        }
+        v.push(Space::new("shared-point-x-above-n", 8 * 3 * 2 * 3, move |case, acc| {
+            let c = coords(case.idx, &[8, 3, 2, 3]);
+            let shared = &ts[c[0] as usize];
+            let si = c[1] as usize + 1;
+            let a = secp::from_be(&t.secrets[si]);
+            let ainv = a.modpow(&(&n - 2u32), &n);
+            let recipient = secp::mul(&ainv, shared);
+            let exclude = c[2] == 1;
+            let message = msg(0, [0usize, 17, 64][c[3] as usize]);
+            let keys = kdf(shared);
+            let want = bie1(&keys, if exclude { None } else { Some(&t.pub_c[si]) }, &message);
+            let renc = secp::encode_point(&recipient, true);
+            let sx = match shared {
+                Point::Affine { x, .. } => hx(&secp::be32(x)),
+                _ => String::new(),
+            };
+            let input = json!({"sender_secret": hex::encode(t.secrets[si]), "recipient_public_key": hx(&renc), "shared_point_x": sx, "msg": hx(&message), "exclude_pub_key": exclude});
+            acc.evaluations += 1;
+            acc.transitions += 2;
+            acc.traces += 1;
+            acc.nontrivial_structural += 1;
+            let sk = match t.lib_priv(si, true) {
+                Ok(k) => k,
+                Err(_) => return,
+            };
+            let r = call(|| {
+                let pk = PublicKey::from_bytes(&renc)?;
+                Ok(ECIES::encrypt(&message, &sk, &pk, exclude)?.to_bytes())
+            });
+            must_eq(acc, case, &input, "ECIES::encrypt", "/shared-x>=n", r, &want);
+        }));
+    }
     // coordinated two-place tampering (MAC comparisons that fold differences accept these)
     {
         let t = t.clone();
